@@ -596,6 +596,17 @@ func runExt(d desc) outcome {
 		for i := 0; i < softspoken.Kappa; i++ {
 			tampers = append(tampers, extTamper{"T" + strconv.Itoa(i), flip(hon.T[i], tr.Intn(128))})
 		}
+	default:
+		// explicit list "X:<hex>;T<i>:<hex>" (replay of a reported alteration)
+		for _, spec := range strings.Split(d.get("tamper"), ";") {
+			kd := strings.SplitN(spec, ":", 2)
+			if len(kd) != 2 || (kd[0] != "X" && !strings.HasPrefix(kd[0], "T")) {
+				continue
+			}
+			var v [16]byte
+			copy(v[:], vh.UnHex(kd[1]))
+			tampers = append(tampers, extTamper{kd[0], v})
+		}
 	case "sample":
 		tampers = append(tampers, extTamper{"X", flip(hon.X, tr.Intn(128))})
 		for k := 0; k < 6; k++ {
